@@ -24,6 +24,8 @@ int g_cw_level0;            /* level handed to KSI_AggregationHashChainList_aggr
 int g_cw_lvlP;              /* root level of the chain at position g_cw_wi - 1 */
 struct KSI_AggregationHashChain_st g_cw_chP, g_cw_chW, g_cw_chO;
 KSI_LIST(KSI_AggregationHashChain) g_cw_chainlist;
+int g_cw_aud_aggfail;      /* (audit builderY) vacuity-guard ghost only: 0 = no aggregation failed, 1 = the aggregation of the FIRST chain failed, 2 = of a LATER chain
+                            * (a previous root was alive); written by the replaced contract of KSI_AggregationHashChain_aggregate, read by REACH guards */
 KSI_DataHash *g_cw_new2_p;  /* == &g_vr_h[VR_H_NEW2]; typed ghost pointer for the loop-contract JSON */
 
 static size_t cw_length(KSI_LIST(KSI_AggregationHashChain) *l) { return g_cw_len; }
